@@ -1,7 +1,8 @@
 (* C02 — Measurement samples follow the Born rule of the measured state.
    Only statements closed by [exact]; proofs live in C02/. *)
-From Coq Require Import ZArith List Bool Reals.
-From PV Require Import C02.PostselectModel C02.PostselectProofs C02.DistModel C02.DistProofs C02.RejectProofs C02.ChainProofs C02.ImperfectModel C02.ShotsProofs.
+From Coq Require Import ZArith QArith List Bool Reals Ring.
+From PV Require Import C02.PostselectModel C02.PostselectProofs C02.DistModel C02.DistProofs C02.RejectProofs C02.ChainProofs C02.ImperfectModel C02.ShotsProofs
+  C02.TruncPolyModel C02.TruncPolyProofs C02.DistTableProofs C02.DyneModel C02.DyneProofs C02.BinningProofs.
 Import ListNotations.
 Open Scope Z_scope.
 
@@ -126,6 +127,103 @@ Theorem C02_imperfect_detection_law : forall (cols : list (list R)) (o : list na
   mass (detect (N:=RN) cols) (eqlN o) = outcome_probability (N:=RN) cols o.
 Proof. exact imperfect_detection_law. Qed.
 Print Assumptions C02_imperfect_detection_law.
+
+(* multiply_by_linear_truncated with distinct buffers: every coefficient inside the array shape
+   is the coefficient of (c + sum_j l_j x_j) * p, over every commutative ring (division and
+   comparison of the number structure arbitrary), every shape, every coefficient array *)
+Theorem C02_trunc_mul_correct :
+  forall (A : Type) (r0 r1 : A) (radd rmul rsub rdiv : A -> A -> A) (ropp : A -> A)
+         (rleb : A -> A -> bool),
+  ring_theory r0 r1 radd rmul rsub ropp (@eq A) ->
+  forall (p : arr (NA A r0 r1 radd rmul rsub rdiv rleb)) c ls idx,
+    @eq A (mul_lin (N:=NA A r0 r1 radd rmul rsub rdiv rleb) false p c ls idx)
+          (product_coeff (N:=NA A r0 r1 radd rmul rsub rdiv rleb) p c ls idx).
+Proof. exact trunc_mul_correct. Qed.
+Print Assumptions C02_trunc_mul_correct.
+
+(* the aliased call of the code before the repair (out = polynomial) does not *)
+Theorem C02_trunc_mul_aliased_refuted :
+  exists (p : arr QN) (c : Q) (ls : list Q) (idx : list nat),
+    ~ (mul_lin (N:=QN) true p c ls idx == product_coeff (N:=QN) p c ls idx)%Q.
+Proof. exact trunc_mul_aliased_refuted. Qed.
+Print Assumptions C02_trunc_mul_aliased_refuted.
+
+(* the post-selection table of the distinguishable photons: entry i at multi-index r is the
+   probability that the photons i, i+1, ... put exactly r_j photons into post-selected mode j,
+   each photon landing in mode j with probability q_j independently (for every list of photons) *)
+Theorem C02_dist_table_correct : forall (k : nat) (particles : list (list R)) (i : nat) (r : list nat),
+  length r = k -> Forall (fun q => length q = k) particles -> (i <= length particles)%nat ->
+  nth i (dist_table (N:=RN) k particles) (delta (N:=RN) k) r
+  = mass (place k (skipn i particles)) (counts_are r).
+Proof. exact dist_table_correct. Qed.
+Print Assumptions C02_dist_table_correct.
+
+(* general-dyne / heterodyne: what is handed to the normal sampler, for every d, every list of
+   measured modes in any order, over any number structure: the index list is (x, p) of every
+   mode in program order, mean = mu[idx], cov = (sigma[idx,idx] + hbar sigma_m^{(+)k}) / 2 *)
+Theorem C02_xpxp_indices_order : forall modes i, (i < length modes)%nat ->
+  nth (2 * i) (xpxp_indices modes) 0%nat = (2 * nth i modes 0)%nat /\
+  nth (2 * i + 1) (xpxp_indices modes) 0%nat = (2 * nth i modes 0 + 1)%nat.
+Proof. exact xpxp_indices_nth. Qed.
+Print Assumptions C02_xpxp_indices_order.
+
+Theorem C02_generaldyne_mean_arg : forall (N : num) (mu : list N) modes,
+  length (dyne_mean_arg mu modes) = (2 * length modes)%nat /\
+  forall a, (a < 2 * length modes)%nat ->
+    nth a (dyne_mean_arg mu modes) n0 = nth (nth a (xpxp_indices modes) 0%nat) mu n0.
+Proof. exact dyne_mean_arg_spec. Qed.
+Print Assumptions C02_generaldyne_mean_arg.
+
+Theorem C02_generaldyne_cov_arg : forall (N : num) halved (hbar : N) (sigma sm : list (list N)) modes,
+  length (dyne_cov_arg halved hbar sigma sm modes) = (2 * length modes)%nat /\
+  forall a b, (a < 2 * length modes)%nat -> (b < 2 * length modes)%nat ->
+    mget (dyne_cov_arg halved hbar sigma sm modes) a b =
+    let s := mget sigma (nth a (xpxp_indices modes) 0%nat) (nth b (xpxp_indices modes) 0%nat) in
+    let m := block_diag_entry sm a b in
+    if halved then ndiv (nadd s (nmul hbar m)) n2 else nadd s (nmul hbar m).
+Proof. exact dyne_cov_arg_spec. Qed.
+Print Assumptions C02_generaldyne_cov_arg.
+
+(* with 2 invertible: twice the covariance handed over by the repaired code is
+   sigma[idx,idx] + hbar sigma_m, i.e. the sampler receives (sigma + sigma_m)/2 *)
+Theorem C02_generaldyne_cov_arg_is_half : forall (N : num) (hbar : N) (sigma sm : list (list N)) modes,
+  (forall x : N, nmul n2 (ndiv x n2) = x) ->
+  forall a b, (a < 2 * length modes)%nat -> (b < 2 * length modes)%nat ->
+    nmul n2 (mget (dyne_cov_arg true hbar sigma sm modes) a b) =
+    nadd (mget sigma (nth a (xpxp_indices modes) 0%nat) (nth b (xpxp_indices modes) 0%nat))
+         (nmul hbar (block_diag_entry sm a b)).
+Proof. exact dyne_cov_arg_doubled. Qed.
+Print Assumptions C02_generaldyne_cov_arg_is_half.
+
+(* one entry per measured quantity (both quadratures of every mode) for heterodyne and
+   general-dyne; the homodyne class is the open finding C02:homodyne_measurement:two-entries-per-mode *)
+Theorem C02_dyne_entries_except_homodyne_two_entries_per_mode :
+  forall (N : num) kind (mu : list N) modes,
+    kind <> Homodyne -> dyne_sample_entries mu modes = measured_quantities kind modes.
+Proof. exact dyne_entries_except_homodyne_two_entries_per_mode. Qed.
+Print Assumptions C02_dyne_entries_except_homodyne_two_entries_per_mode.
+
+Theorem C02_homodyne_entries_refuted : forall (N : num) (mu : list N) modes, modes <> [] ->
+  dyne_sample_entries mu modes <> measured_quantities Homodyne modes.
+Proof. exact homodyne_entries_refuted. Qed.
+Print Assumptions C02_homodyne_entries_refuted.
+
+(* binning of sample_from_probability_map / get_counts, for every list of draws *)
+Theorem C02_binning_counts_total : forall (A : Type) (eqb : A -> A -> bool) (samples : list A),
+  sumc A (get_counts eqb samples) = length samples.
+Proof. exact counts_total. Qed.
+Print Assumptions C02_binning_counts_total.
+
+Theorem C02_binning_counts_value : forall (A : Type) (eqb : A -> A -> bool),
+  (forall x y, eqb x y = true <-> x = y) ->
+  forall a samples, lookup A eqb a (get_counts eqb samples) = count A eqb a samples.
+Proof. exact counts_value. Qed.
+Print Assumptions C02_binning_counts_value.
+
+Theorem C02_binning_frequencies_sum : forall A (eqb : A -> A -> bool) (samples : list A),
+  samples <> [] -> (sumQ (map snd (frequencies eqb samples)) == 1)%Q.
+Proof. exact binning_frequencies_sum. Qed.
+Print Assumptions C02_binning_frequencies_sum.
 
 Example C02_example_accept :
   run_from true true [0%nat] [1] 2 2 5 0 [Kept 0 1; Kept 0 0] = Accepted [1] 1%nat [].
